@@ -294,9 +294,9 @@ SPEC = {
              'CircuitsDatabase add -> save -> reopen -> get_by_label with arbitrary text labels. Non-trivial: >=2 '
              'non-input gates (circuits), >=3 writes not byte aligned (bits), >=2 entries (dict).'),
     'assumptions': ['reference tables from vlib/refsem.py'],
-    'subs': [Sub('codec', circuit_cases, check_codec, {'quick': 3000, 'thorough': 50000}),
-             Sub('bits', bit_cases, check_bits, {'quick': 1500, 'thorough': 20000}),
-             Sub('dict', dict_cases, check_dict, {'quick': 1200, 'thorough': 15000})],
+    'subs': [Sub('codec', circuit_cases, check_codec, {'quick': 3000, 'thorough': 250000}),
+             Sub('bits', bit_cases, check_bits, {'quick': 1500, 'thorough': 100000}),
+             Sub('dict', dict_cases, check_dict, {'quick': 1200, 'thorough': 75000})],
     'required_classes': {'codec': ['in_format', 'out_of_format', 'storage_not_topological', 'constant',
                                    'zero_inputs_pow2_gates', 'nary>=3', 'LR_gate', 'via_db', 'dup_output'],
                          'dict': ['non_ascii_key', 'max_length_value'], 'bits': ['has_rejected']},
